@@ -123,7 +123,7 @@ class RegionGraph():
             size = len(regions)
             for r1, r2 in itertools.combinations(regions, 2):
                 z = tuple(sorted(set(r1) & set(r2)))
-                if len(z) > 0 and not z in regions:
+                if len(z) > 0 and not any(set(z) == set(r) for r in regions):
                     regions.update({z})
 
         G = nx.DiGraph()
